@@ -12,6 +12,8 @@ def main():
     args = ap.parse_args()
     seed = int(os.environ.get("VERIF_SEED", "0") or 0)
     sys.setrecursionlimit(10000)
+    import logging
+    logging.disable(logging.CRITICAL)   # formatting/logging is not the subject of any property
     from symx import harness
     mod = importlib.import_module("props.%s" % args.prop)
     rc = harness.run_check(args.prop, mod, args.tier, seed)
